@@ -74,6 +74,29 @@ Theorem C11_lockset_up4_reconnect_refuted :
 Proof. exact (conj up4_bad_all up4_reconnect_refuted). Qed.
 Print Assumptions C11_lockset_up4_reconnect_refuted.
 
+(* ---- atomic steps: the functions the argument treats as ONE step are one lock region in the source *)
+(* generic reading of the boolean check *)
+Theorem C11_atomic_regions_sound : forall reqs t, atomic_ok reqs t = true ->
+  forall f need, In (f, need) reqs ->
+  exists a, In a t /\ af_func a = f /\ af_covered a = true /\ (0 < af_accesses a)%nat /\ (need = true -> af_dp_inside a = true).
+Proof. exact atomic_ok_spec. Qed.
+Print Assumptions C11_atomic_regions_sound.
+
+(* evaluated on the generated table: IP pool and TEID generator methods, the tunnel-peer protocol INCLUDING its
+   P4Runtime write, the UE-address maps, the application bookkeeping (atomic_steps in Model/LocksTable.v) *)
+Theorem C11_atomic_steps_tied : atomic_ok atomic_steps atomic_tbl = true.
+Proof. exact atomic_steps_tied. Qed.
+Print Assumptions C11_atomic_steps_tied.
+
+(* REFUTED for the application protocol with its datapath write (F1102): add / removeInternalApplicationID... are one
+   region over the bookkeeping but issue no datapath write at all - the Applications entry they return is written by the
+   caller after applicationMu was released *)
+Theorem C11_application_write_outside_refuted : atomic_ok application_steps_with_write atomic_tbl = false /\
+  forallb (fun a => negb (prefix "UP4.addInternalApplication" (af_func a) || prefix "UP4.removeInternalApplication" (af_func a))
+                    || (af_covered a && Nat.eqb (af_dp_calls a) 0)) atomic_tbl = true.
+Proof. exact application_write_outside. Qed.
+Print Assumptions C11_application_write_outside_refuted.
+
 (* ---------------------------------------------------------------- (b) serializability on the BESS datapath *)
 (* command lists that address different (module, key) slots commute *)
 Theorem C11_batches_commute : forall cs1 cs2 t, keys_disjoint cs1 cs2 ->
